@@ -121,6 +121,12 @@ func (e *Engine) rtypeOfGo(t types.Type) *RType {
 		rt.Elem = e.rtypeOfGo(u.Elem())
 	case *types.Slice:
 		rt.Elem = e.rtypeOfGo(u.Elem())
+	case *types.Array:
+		rt.Elem = e.rtypeOfGo(u.Elem())
+	case *types.Map:
+		rt.Elem = e.rtypeOfGo(u.Elem())
+	case *types.Chan:
+		rt.Elem = e.rtypeOfGo(u.Elem())
 	}
 	if t == constIntT || t == constStrT || t == constBoolT || t == constFloatT || t == constUnknownT {
 		rt.ConstImpl = true
@@ -284,6 +290,89 @@ func registerReflectModel(e *Engine) {
 		}
 		return rtypeIface(st.E.rtypeOfGo(iv.T))
 	}
+	// type constructors, through go/types
+	goT := func(st *State, v Value, what string) types.Type {
+		rt := asRType(st, v)
+		if rt == nil {
+			st.rpanic("reflect: %s of nil type", what)
+		}
+		if rt.GoType != nil {
+			return rt.GoType
+		}
+		if gt := kindGoType(rt.Kind); gt != nil {
+			return gt
+		}
+		st.unsupported("reflect.%s on a type without a Go type", what)
+		return nil
+	}
+	ptrTo := func(st *State, a []Value) Value {
+		return rtypeIface(st.E.rtypeOfGo(types.NewPointer(goT(st, a[0], "PointerTo"))))
+	}
+	H["reflect.PtrTo"] = ptrTo
+	H["reflect.PointerTo"] = ptrTo
+	H["reflect.SliceOf"] = func(st *State, a []Value) Value {
+		return rtypeIface(st.E.rtypeOfGo(types.NewSlice(goT(st, a[0], "SliceOf"))))
+	}
+	H["reflect.ArrayOf"] = func(st *State, a []Value) Value {
+		n := st.concreteInt(a[0], "array length")
+		return rtypeIface(st.E.rtypeOfGo(types.NewArray(goT(st, a[1], "ArrayOf"), int64(n))))
+	}
+	H["reflect.MapOf"] = func(st *State, a []Value) Value {
+		return rtypeIface(st.E.rtypeOfGo(types.NewMap(goT(st, a[0], "MapOf"), goT(st, a[1], "MapOf"))))
+	}
+	H["reflect.ChanOf"] = func(st *State, a []Value) Value {
+		d := st.concreteInt(a[0], "channel direction")
+		dir := types.SendRecv
+		switch d {
+		case 1:
+			dir = types.RecvOnly
+		case 2:
+			dir = types.SendOnly
+		}
+		return rtypeIface(st.E.rtypeOfGo(types.NewChan(dir, goT(st, a[1], "ChanOf"))))
+	}
+	H["reflect.FuncOf"] = func(st *State, a []Value) Value {
+		vars := func(v Value) []*types.Var {
+			var r []*types.Var
+			if sl, ok := v.(*SliceV); ok {
+				for _, e := range st.sliceElems(sl) {
+					r = append(r, types.NewVar(token.NoPos, nil, "", goT(st, e, "FuncOf")))
+				}
+			}
+			return r
+		}
+		variadic := false
+		if t, ok := a[2].(*Term); ok && t.Const {
+			variadic = t.CB
+		} else {
+			st.unsupported("reflect.FuncOf with a symbolic variadic flag")
+		}
+		sig := types.NewSignatureType(nil, nil, nil, types.NewTuple(vars(a[0])...), types.NewTuple(vars(a[1])...), variadic)
+		return rtypeIface(st.E.rtypeOfGo(sig))
+	}
+	// StructOf: fields are reflect.StructField values {Name, PkgPath, Type, Tag, Offset, Index, Anonymous}
+	H["reflect.StructOf"] = func(st *State, a []Value) Value {
+		var fields []*types.Var
+		var tags []string
+		if sl, ok := a[0].(*SliceV); ok {
+			for _, e := range st.sliceElems(sl) {
+				f := e.(*StructV)
+				name := constStr(st, f.F[0], "struct field name")
+				ft := goT(st, f.F[2], "StructOf")
+				anon := false
+				if t, ok := f.F[6].(*Term); ok && t.Const {
+					anon = t.CB
+				}
+				tag := ""
+				if t, ok := f.F[3].(*Term); ok && t.Const {
+					tag = t.CS
+				}
+				fields = append(fields, types.NewField(token.NoPos, nil, name, ft, anon))
+				tags = append(tags, tag)
+			}
+		}
+		return rtypeIface(st.E.rtypeOfGo(types.NewStruct(fields, tags)))
+	}
 	H["reflect.ValueOf"] = func(st *State, a []Value) Value {
 		iv, _ := a[0].(*IfaceV)
 		if iv == nil || iv.T == nil {
@@ -298,11 +387,119 @@ func registerReflectModel(e *Engine) {
 			st.rpanic("reflect: New(nil)")
 		}
 		o := st.newObject(rt.GoType, "reflect.New", st.E.zeroPayload(rt))
-		return &RVal{Kind: rkPtr, Typ: &RType{Kind: rkPtr, Elem: rt}, Val: &PtrV{Obj: o}}
+		pt := &RType{Kind: rkPtr, Elem: rt}
+		if gt := rt.GoType; gt != nil {
+			pt.GoType = types.NewPointer(gt)
+		} else if gt := kindGoType(rt.Kind); gt != nil {
+			pt.GoType = types.NewPointer(gt)
+		}
+		return &RVal{Kind: rkPtr, Typ: pt, Val: &PtrV{Obj: o}}
 	}
 	H["reflect.Zero"] = func(st *State, a []Value) Value {
 		rt := asRType(st, a[0])
 		return &RVal{Kind: rt.Kind, Typ: rt, Val: st.E.zeroPayload(rt)}
+	}
+	// DeepEqual on reflect.Type values (what yaegi compares with it) and on scalars
+	H["reflect.DeepEqual"] = func(st *State, a []Value) Value {
+		x, ok1 := a[0].(*IfaceV)
+		y, ok2 := a[1].(*IfaceV)
+		if !ok1 || !ok2 {
+			st.unsupported("reflect.DeepEqual on %T / %T", a[0], a[1])
+		}
+		if x.T == nil || y.T == nil {
+			return BoolT(x.T == nil && y.T == nil)
+		}
+		if x.T == rtypeDyn && y.T == rtypeDyn {
+			rx, ry := x.V.(*RType), y.V.(*RType)
+			if rx.GoType != nil && ry.GoType != nil {
+				return BoolT(types.Identical(rx.GoType, ry.GoType))
+			}
+			return BoolT(rx.Kind == ry.Kind && rx.GoType == nil && ry.GoType == nil)
+		}
+		if !types.Identical(x.T, y.T) {
+			return FalseT
+		}
+		if _, isT := x.V.(*Term); isT {
+			return st.eqValues(x.V, y.V)
+		}
+		st.unsupported("reflect.DeepEqual on values of type %s", x.T)
+		return nil
+	}
+	H["reflect.MakeMap"] = func(st *State, a []Value) Value {
+		rt := asRType(st, a[0])
+		if rt == nil || rt.Kind != rkMap {
+			st.rpanic("reflect.MakeMap of non-map type")
+		}
+		o := st.newObject(rt.GoType, "reflect.MakeMap", &MapData{})
+		return &RVal{Kind: rkMap, Typ: rt, Val: &MapV{Obj: o}}
+	}
+	H["reflect.MakeMapWithSize"] = H["reflect.MakeMap"]
+	H["reflect.MakeSlice"] = func(st *State, a []Value) Value {
+		rt := asRType(st, a[0])
+		if rt == nil || rt.Kind != rkSlice {
+			st.rpanic("reflect.MakeSlice of non-slice type")
+		}
+		n, c := st.concreteInt(a[1], "slice length"), st.concreteInt(a[2], "slice capacity")
+		et := rt.GoType.Underlying().(*types.Slice).Elem()
+		return &RVal{Kind: rkSlice, Typ: rt, Val: st.makeSlice(et, n, c)}
+	}
+	H["reflect.Indirect"] = func(st *State, a []Value) Value {
+		v := asRVal(st, a[0])
+		if v.Kind != rkPtr {
+			return v
+		}
+		ptr := st.rpayload(v).(*PtrV)
+		if ptr.Obj == nil {
+			return &RVal{}
+		}
+		return &RVal{Kind: v.Typ.Elem.Kind, Typ: v.Typ.Elem, Ref: ptr}
+	}
+	H["reflect.Copy"] = func(st *State, a []Value) Value {
+		d, sv := asRVal(st, a[0]), asRVal(st, a[1])
+		dst, ok1 := st.rpayload(d).(*SliceV)
+		src, ok2 := st.rpayload(sv).(*SliceV)
+		if !ok1 || !ok2 {
+			st.unsupported("reflect.Copy on %s / %s", rkNames[d.Kind], rkNames[sv.Kind])
+		}
+		n := dst.Len
+		if src.Len < n {
+			n = src.Len
+		}
+		el := st.sliceElems(src)
+		for i := 0; i < n; i++ {
+			st.store(&PtrV{Obj: dst.Obj, Path: []int{dst.Off + i}}, el[i])
+		}
+		return st.E.intTerm(big.NewInt(int64(n)), types.Typ[types.Int])
+	}
+	// appendVals mimics the builtin: in place when the capacity allows, else a new array
+	appendVals := func(st *State, cur *SliceV, add []Value) *SliceV {
+		if len(add) == 0 {
+			return cur
+		}
+		nl := cur.Len + len(add)
+		if cur.Obj != nil && nl <= cur.Cap {
+			arr := st.get(cur.Obj).(*ArrayV)
+			ne := append([]Value(nil), arr.E...)
+			copy(ne[cur.Off+cur.Len:], add)
+			st.set(cur.Obj, &ArrayV{E: ne})
+			return &SliceV{Obj: cur.Obj, Off: cur.Off, Len: nl, Cap: cur.Cap}
+		}
+		ne := append(append([]Value(nil), st.sliceElems(cur)...), add...)
+		o := st.newObject(nil, "reflect.Append", &ArrayV{E: ne})
+		return &SliceV{Obj: o, Len: nl, Cap: nl}
+	}
+	H["reflect.AppendSlice"] = func(st *State, a []Value) Value {
+		sv, tv := asRVal(st, a[0]), asRVal(st, a[1])
+		cur, _ := st.rpayload(sv).(*SliceV)
+		if cur == nil {
+			cur = &SliceV{}
+		}
+		add, _ := st.rpayload(tv).(*SliceV)
+		var more []Value
+		if add != nil {
+			more = st.sliceElems(add)
+		}
+		return &RVal{Kind: rkSlice, Typ: sv.Typ, Val: appendVals(st, cur, more)}
 	}
 	H["reflect.Append"] = func(st *State, a []Value) Value {
 		s := asRVal(st, a[0])
@@ -319,9 +516,7 @@ func registerReflectModel(e *Engine) {
 				add = append(add, st.rpayload(asRVal(st, x)))
 			}
 		}
-		ne := append(append([]Value(nil), st.sliceElems(cur)...), add...)
-		o := st.newObject(nil, "reflect.Append", &ArrayV{E: ne})
-		return &RVal{Kind: rkSlice, Typ: s.Typ, Val: &SliceV{Obj: o, Len: len(ne), Cap: len(ne)}}
+		return &RVal{Kind: rkSlice, Typ: s.Typ, Val: appendVals(st, cur, add)}
 	}
 	H["reflect.MakeFunc"] = func(st *State, a []Value) Value {
 		rt := asRType(st, a[0])
@@ -359,8 +554,23 @@ func registerReflectModel(e *Engine) {
 		}
 		return rtypeIface(rt.Elem)
 	})
-	tm("String", func(st *State, rt *RType, a []Value) Value { return StrT(rkNames[rt.Kind]) })
-	tm("Name", func(st *State, rt *RType, a []Value) Value { return StrT(rkNames[rt.Kind]) })
+	tm("String", func(st *State, rt *RType, a []Value) Value {
+		if rt.GoType != nil {
+			return StrT(types.TypeString(rt.GoType, func(p *types.Package) string { return p.Name() }))
+		}
+		return StrT(rkNames[rt.Kind])
+	})
+	tm("Name", func(st *State, rt *RType, a []Value) Value {
+		switch t := rt.GoType.(type) {
+		case *types.Named:
+			return StrT(t.Obj().Name())
+		case *types.Basic:
+			return StrT(t.Name())
+		case nil:
+			return StrT(rkNames[rt.Kind])
+		}
+		return StrT("")
+	})
 	tm("Implements", func(st *State, rt *RType, a []Value) Value {
 		u := asRType(st, a[0])
 		if u == nil || u.Kind != rkInterface {
@@ -383,6 +593,109 @@ func registerReflectModel(e *Engine) {
 		}
 		return kindGoType(rt.Kind)
 	}
+	structOf := func(st *State, rt *RType, what string) *types.Struct {
+		if rt.GoType != nil {
+			if sv, ok := rt.GoType.Underlying().(*types.Struct); ok {
+				return sv
+			}
+		}
+		st.rpanic("reflect: %s of non-struct type", what)
+		return nil
+	}
+	// a reflect.StructField value: {Name, PkgPath, Type, Tag, Offset, Index, Anonymous}
+	structField := func(st *State, sv *types.Struct, i int) Value {
+		f := sv.Field(i)
+		pkg := ""
+		if !f.Exported() && f.Pkg() != nil {
+			pkg = f.Pkg().Path()
+		}
+		idx := st.newObject(nil, "fieldindex", &ArrayV{E: []Value{st.E.intTerm(big.NewInt(int64(i)), types.Typ[types.Int])}})
+		return &StructV{F: []Value{StrT(f.Name()), StrT(pkg), rtypeIface(st.E.rtypeOfGo(f.Type())), StrT(sv.Tag(i)),
+			st.E.intTerm(big.NewInt(int64(8*i)), types.Typ[types.Uintptr]), &SliceV{Obj: idx, Len: 1, Cap: 1}, BoolT(f.Embedded())}}
+	}
+	tm("NumField", func(st *State, rt *RType, a []Value) Value {
+		return st.E.intTerm(big.NewInt(int64(structOf(st, rt, "NumField").NumFields())), types.Typ[types.Int])
+	})
+	tm("Field", func(st *State, rt *RType, a []Value) Value {
+		sv := structOf(st, rt, "Field")
+		i := st.concreteInt(a[0], "field index")
+		if i < 0 || i >= sv.NumFields() {
+			st.rpanic("reflect: Field index out of bounds")
+		}
+		return structField(st, sv, i)
+	})
+	tm("FieldByName", func(st *State, rt *RType, a []Value) Value {
+		sv := structOf(st, rt, "FieldByName")
+		name := constStr(st, a[0], "field name")
+		for i := 0; i < sv.NumFields(); i++ {
+			if sv.Field(i).Name() == name {
+				return TupleV{structField(st, sv, i), TrueT}
+			}
+		}
+		zero := &StructV{F: []Value{StrT(""), StrT(""), &IfaceV{}, StrT(""), st.E.intTerm(big.NewInt(0), types.Typ[types.Uintptr]), &SliceV{}, FalseT}}
+		return TupleV{zero, FalseT}
+	})
+	tm("Key", func(st *State, rt *RType, a []Value) Value {
+		if rt.GoType != nil {
+			if m, ok := rt.GoType.Underlying().(*types.Map); ok {
+				return rtypeIface(st.E.rtypeOfGo(m.Key()))
+			}
+		}
+		st.rpanic("reflect: Key of non-map type")
+		return nil
+	})
+	tm("Len", func(st *State, rt *RType, a []Value) Value {
+		if rt.GoType != nil {
+			if at, ok := rt.GoType.Underlying().(*types.Array); ok {
+				return st.E.intTerm(big.NewInt(at.Len()), types.Typ[types.Int])
+			}
+		}
+		st.rpanic("reflect: Len of non-array type")
+		return nil
+	})
+	tm("PkgPath", func(st *State, rt *RType, a []Value) Value {
+		if n, ok := rt.GoType.(*types.Named); ok && n.Obj().Pkg() != nil {
+			return StrT(n.Obj().Pkg().Path())
+		}
+		return StrT("")
+	})
+	// MethodByName on a type: {Name, PkgPath, Type, Func, Index}, ok
+	tm("MethodByName", func(st *State, rt *RType, a []Value) Value {
+		name := constStr(st, a[0], "method name")
+		zero := &StructV{F: []Value{StrT(""), StrT(""), &IfaceV{}, &RVal{}, st.E.intTerm(big.NewInt(0), types.Typ[types.Int])}}
+		gt := goTypeOf(rt)
+		if gt == nil {
+			return TupleV{zero, FalseT}
+		}
+		ms := st.E.P.Prog.MethodSets.MethodSet(gt)
+		idx := 0
+		for i := 0; i < ms.Len(); i++ {
+			sel := ms.At(i)
+			if !sel.Obj().Exported() && !types.IsInterface(gt) {
+				continue
+			}
+			if sel.Obj().Name() == name {
+				sig := sel.Type().(*types.Signature)
+				ps := []*types.Var{}
+				if !types.IsInterface(gt) {
+					ps = append(ps, types.NewVar(token.NoPos, nil, "", gt))
+				}
+				for j := 0; j < sig.Params().Len(); j++ {
+					ps = append(ps, sig.Params().At(j))
+				}
+				ft := types.NewSignatureType(nil, nil, nil, types.NewTuple(ps...), sig.Results(), sig.Variadic())
+				var fn Value = &RVal{}
+				if f := st.E.P.Prog.MethodValue(sel); f != nil {
+					frt := st.E.rtypeOfGo(ft)
+					fn = &RVal{Kind: frt.Kind, Typ: frt, Val: &FuncV{Fn: f}}
+				}
+				m := &StructV{F: []Value{StrT(name), StrT(""), rtypeIface(st.E.rtypeOfGo(ft)), fn, st.E.intTerm(big.NewInt(int64(idx)), types.Typ[types.Int])}}
+				return TupleV{m, TrueT}
+			}
+			idx++
+		}
+		return TupleV{zero, FalseT}
+	})
 	tm("NumMethod", func(st *State, rt *RType, a []Value) Value {
 		gt := goTypeOf(rt)
 		if gt == nil {
@@ -491,6 +804,16 @@ func registerReflectModel(e *Engine) {
 		gt := v.Typ.GoType
 		if gt == nil {
 			gt = kindGoType(v.Kind)
+		}
+		if gt == nil && v.Kind == rkPtr && v.Typ.Elem != nil {
+			// a pointer type made by New/Addr: derive it from its element type
+			et := v.Typ.Elem.GoType
+			if et == nil {
+				et = kindGoType(v.Typ.Elem.Kind)
+			}
+			if et != nil {
+				gt = types.NewPointer(et)
+			}
 		}
 		if gt == nil {
 			st.unsupported("Interface() of a value without a Go type")
@@ -674,6 +997,20 @@ func registerReflectModel(e *Engine) {
 			if v.Kind == rt.Kind {
 				return &RVal{Kind: rt.Kind, Typ: rt, Val: p}
 			}
+			// string <-> []byte / []rune, through the engine's own conversion (constant contents)
+			if rt.GoType != nil {
+				from := v.Typ.GoType
+				if from == nil {
+					from = kindGoType(v.Kind)
+				}
+				if from != nil {
+					_, toSlice := rt.GoType.Underlying().(*types.Slice)
+					_, fromSlice := from.Underlying().(*types.Slice)
+					if (v.Kind == rkString && toSlice) || (fromSlice && rt.Kind == rkString) {
+						return &RVal{Kind: rt.Kind, Typ: rt, Val: st.convert(p, from, rt.GoType)}
+					}
+				}
+			}
 			st.unsupported("Convert between %s and %s", rkNames[v.Kind], rkNames[rt.Kind])
 		}
 		return &RVal{Kind: rt.Kind, Typ: rt, Val: st.convertPayload(p, v.Kind, rt.Kind)}
@@ -742,12 +1079,122 @@ func registerReflectModel(e *Engine) {
 			n = p.Len
 		case *ArrayV:
 			n = len(p.E)
+		case *MapV:
+			k, _ := st.liveEntries(p)
+			n = len(k)
 		case *Term:
 			if p.Sort == SString {
 				return st.fromMathInt(st.strLen(p), types.Typ[types.Int])
 			}
 		}
 		return st.E.intTerm(big.NewInt(int64(n)), types.Typ[types.Int])
+	})
+	fieldOf := func(st *State, v *RVal, i int) *RVal {
+		sv, ok := v.Typ.GoType.Underlying().(*types.Struct)
+		if !ok {
+			st.rpanic("reflect: call of reflect.Value.Field on %s Value", rkNames[v.Kind])
+		}
+		if i < 0 || i >= sv.NumFields() {
+			st.rpanic("reflect: Field index out of range")
+		}
+		ft := st.E.rtypeOfGo(sv.Field(i).Type())
+		if v.Ref != nil {
+			np := append(append([]int(nil), v.Ref.Path...), i)
+			return &RVal{Kind: ft.Kind, Typ: ft, Ref: &PtrV{Obj: v.Ref.Obj, Path: np}}
+		}
+		return &RVal{Kind: ft.Kind, Typ: ft, Val: v.Val.(*StructV).F[i]}
+	}
+	vm("NumField", func(st *State, v *RVal, a []Value) Value {
+		sv, ok := v.Typ.GoType.Underlying().(*types.Struct)
+		if !ok {
+			st.rpanic("reflect: call of reflect.Value.NumField on %s Value", rkNames[v.Kind])
+		}
+		return st.E.intTerm(big.NewInt(int64(sv.NumFields())), types.Typ[types.Int])
+	})
+	vm("Field", func(st *State, v *RVal, a []Value) Value { return fieldOf(st, v, st.concreteInt(a[0], "field index")) })
+	vm("FieldByIndex", func(st *State, v *RVal, a []Value) Value {
+		cur := v
+		if sl, ok := a[0].(*SliceV); ok {
+			for _, e := range st.sliceElems(sl) {
+				if cur.Kind == rkPtr {
+					ptr := st.rpayload(cur).(*PtrV)
+					if ptr.Obj == nil {
+						st.rpanic("reflect: indirection through nil pointer to embedded struct")
+					}
+					cur = &RVal{Kind: cur.Typ.Elem.Kind, Typ: cur.Typ.Elem, Ref: ptr}
+				}
+				cur = fieldOf(st, cur, st.concreteInt(e, "field index"))
+			}
+		}
+		return cur
+	})
+	mapType := func(st *State, v *RVal, what string) *types.Map {
+		if v.Typ != nil && v.Typ.GoType != nil {
+			if m, ok := v.Typ.GoType.Underlying().(*types.Map); ok {
+				return m
+			}
+		}
+		st.rpanic("reflect: call of reflect.Value.%s on %s Value", what, rkNames[v.Kind])
+		return nil
+	}
+	vm("MapIndex", func(st *State, v *RVal, a []Value) Value {
+		mt := mapType(st, v, "MapIndex")
+		m, _ := st.rpayload(v).(*MapV)
+		if m == nil {
+			m = &MapV{}
+		}
+		k := st.rpayload(asRVal(st, a[0]))
+		val, ok := st.mapLookup(m, k, mt.Elem())
+		if !st.Branch(ok) {
+			return &RVal{}
+		}
+		et := st.E.rtypeOfGo(mt.Elem())
+		return &RVal{Kind: et.Kind, Typ: et, Val: val}
+	})
+	vm("SetMapIndex", func(st *State, v *RVal, a []Value) Value {
+		mapType(st, v, "SetMapIndex")
+		m, _ := st.rpayload(v).(*MapV)
+		k := st.rpayload(asRVal(st, a[0]))
+		e := asRVal(st, a[1])
+		if e.Kind == rkInvalid {
+			if m != nil && m.Obj != nil {
+				st.mapDelete(m, k)
+			}
+			return nil
+		}
+		if m == nil {
+			m = &MapV{}
+		}
+		st.mapUpdate(m, k, st.rpayload(e))
+		return nil
+	})
+	vm("MapKeys", func(st *State, v *RVal, a []Value) Value {
+		mt := mapType(st, v, "MapKeys")
+		m, _ := st.rpayload(v).(*MapV)
+		if m == nil || m.Obj == nil {
+			return &SliceV{}
+		}
+		keys, _ := st.liveEntries(m)
+		kt := st.E.rtypeOfGo(mt.Key())
+		var out []Value
+		for _, k := range keys {
+			out = append(out, &RVal{Kind: kt.Kind, Typ: kt, Val: k})
+		}
+		if len(out) == 0 {
+			return &SliceV{}
+		}
+		o := st.newObject(nil, "mapkeys", &ArrayV{E: out})
+		return &SliceV{Obj: o, Len: len(out), Cap: len(out)}
+	})
+	vm("SetLen", func(st *State, v *RVal, a []Value) Value {
+		st.rsettable(v, "SetLen")
+		sl, ok := st.rpayload(v).(*SliceV)
+		n := st.concreteInt(a[0], "slice length")
+		if !ok || n < 0 || n > sl.Cap {
+			st.rpanic("reflect: slice length out of range in SetLen")
+		}
+		st.store(v.Ref, &SliceV{Obj: sl.Obj, Off: sl.Off, Len: n, Cap: sl.Cap})
+		return nil
 	})
 	vm("Cap", func(st *State, v *RVal, a []Value) Value {
 		n := 0
@@ -790,6 +1237,15 @@ func registerReflectModel(e *Engine) {
 			rt := st.E.rtypeOfGo(types.NewSlice(at.Elem()))
 			return &RVal{Kind: rkSlice, Typ: rt, Val: &SliceV{Obj: v.Ref.Obj, Off: lo, Len: hi - lo, Cap: max - lo}}
 		}
+		if t, ok := st.rpayload(v).(*Term); ok && t.Sort == SString && !three {
+			if t.Const {
+				if lo < 0 || hi < lo || hi > len(t.CS) {
+					st.rpanic("reflect.Value.Slice: string slice index out of bounds")
+				}
+				return &RVal{Kind: rkString, Typ: v.Typ, Val: StrT(t.CS[lo:hi])}
+			}
+			st.unsupported("reflect.Value.Slice on a symbolic string")
+		}
 		st.unsupported("reflect.Value.%s on %s", what, rkNames[v.Kind])
 		return nil
 	}
@@ -827,6 +1283,15 @@ func registerReflectModel(e *Engine) {
 				return &RVal{Kind: et.Kind, Typ: et, Ref: &PtrV{Obj: v.Ref.Obj, Path: np}}
 			}
 			return &RVal{Kind: et.Kind, Typ: et, Val: p.E[i]}
+		}
+		if t, ok := st.rpayload(v).(*Term); ok && t.Sort == SString {
+			// a byte of a string (ASCII model)
+			n := st.strLen(t)
+			if !st.Branch(And(IntLe(IntT64(0), IntT64(int64(i))), IntLt(IntT64(int64(i)), n))) {
+				st.rpanic("reflect: string index out of range")
+			}
+			bt := st.E.rtypeOfGo(types.Typ[types.Uint8])
+			return &RVal{Kind: bt.Kind, Typ: bt, Val: st.fromMathInt(StrAtCode(t, IntT64(int64(i))), types.Typ[types.Uint8])}
 		}
 		st.unsupported("reflect.Value.Index on %s", rkNames[v.Kind])
 		return nil
